@@ -74,6 +74,7 @@ class Substrate(object):
         elif self.kind == 'redis':
             self.redis = simredis.SimRedis(world, latency=tuple(lat) if lat
                                            else simredis.LAT_REDIS)
+            self.prefix = scn.get('redis_prefix') or 'slimta:'
         else:
             self.objects = simcloud.SimObjectStore(
                 world, latency=tuple(lat) if lat else simcloud.LAT_CLOUD)
@@ -127,7 +128,7 @@ class Substrate(object):
             for key, h in self.redis.data.items():
                 if not isinstance(h, dict) or b'envelope' not in h:
                     continue
-                id = key.decode()[len('slimta:'):]
+                id = key.decode()[len(self.prefix):]
                 dl = h.get(b'delivered_indexes')
                 out[id] = rec(pickle.loads(h[b'envelope']),
                               float(h.get(b'timestamp', b'0')),
@@ -152,13 +153,28 @@ class Substrate(object):
             from slimta.diskstorage import DiskStorage
             return DiskStorage('/q/env', '/q/meta', '/q/tmp')
         if self.kind == 'redis':
-            from slimta.redisstorage import RedisStorage
-            st = RedisStorage.__new__(RedisStorage)
-            from slimta.queue import QueueStorage
-            QueueStorage.__init__(st)
-            st.redis = self.redis
-            st.prefix = 'slimta:'
-            st.queue_key = 'slimta:queue'
+            import slimta.redisstorage as rs
+            sim = self.redis
+
+            class _RedisModule(object):
+                """what slimta.redisstorage sees as `redis` while the real
+                constructor runs: the connection it makes is the simulated
+                server"""
+                @staticmethod
+                def ConnectionPool(*a, **kw):
+                    return None
+
+                @staticmethod
+                def StrictRedis(*a, **kw):
+                    return sim
+                Redis = StrictRedis
+            real = rs.redis
+            rs.redis = _RedisModule
+            try:
+                st = rs.RedisStorage(prefix=self.prefix)
+            finally:
+                rs.redis = real
+            st.redis = sim
             return st
         from slimta.cloudstorage import CloudStorage
         return CloudStorage(self.objects, self.mq)
@@ -176,6 +192,7 @@ def observed_store_class():
             self.obs = obs
             self.world = world
             self.tag = tag
+            self.fail_writes = ()     # markers whose write() is refused
 
         def _rec(self, op, id, fn, *args):
             w = self.world
@@ -202,8 +219,14 @@ def observed_store_class():
 
         def write(self, envelope, timestamp):
             k = marker_of(envelope)
-            rec, r = self._rec('write', None, self.inner.write, envelope,
-                               timestamp)
+            fn = self.inner.write
+            if k in self.fail_writes:
+                # scripted storage fault: this one envelope cannot be written
+                def fn(envelope, timestamp):
+                    from slimta.queue import QueueError
+                    self.world.fault('store-write-refused')
+                    raise QueueError('scripted write failure')
+            rec, r = self._rec('write', None, fn, envelope, timestamp)
             rec['id'] = r
             rec['args'] = timestamp
             rec['k'] = k
@@ -232,9 +255,31 @@ def observed_store_class():
             return r
 
         def load(self):
-            rec, r = self._rec('load', None, lambda: list(self.inner.load()))
-            rec['args'] = [(ts, _norm(i)) for ts, i in r]
-            return r
+            # as lazy as the backend's own listing: entries are handed over
+            # one by one, the caller runs in between
+            w = self.world
+            rec = {'op': 'load', 'id': None, 't0': w.loop._now, 't1': None,
+                   'args': [], 'ok': None, 'tag': self.tag,
+                   's0': w.counter('attseq'), 's1': None}
+            self.obs['store_ops'].append(rec)
+            w.log('ST', self.tag, 'load', 'start')
+            try:
+                for entry in self.inner.load():
+                    rec['args'].append((entry[0], _norm(entry[1])))
+                    yield entry
+            except GeneratorExit:
+                raise
+            except BaseException as e:
+                rec['t1'] = w.loop._now
+                rec['s1'] = w.counter('attseq')
+                rec['ok'] = False
+                rec['exc'] = type(e).__name__
+                w.log('ST', self.tag, 'load', 'exc', type(e).__name__)
+                raise
+            rec['t1'] = w.loop._now
+            rec['s1'] = w.counter('attseq')
+            rec['ok'] = True
+            w.log('ST', self.tag, 'load', 'end')
 
         def get(self, id):
             rec, r = self._rec('get', id, self.inner.get, id)
@@ -712,6 +757,7 @@ def build(world, scn, obs, fs=None, counts=None, bounces=0):
     sub = Substrate(world, scn, fs=fs)
     OS = observed_store_class()
     store = OS(sub.new_storage(), obs, world, 's')
+    store.fail_writes = tuple(scn.get('write_fail') or ())
     if scn.get('relay') in ('smtp', 'lmtp'):
         world.probe('relay:' + scn['relay'])
         relay = smtp_relay(world, scn, obs)
